@@ -294,6 +294,36 @@ def run(ctx):
             nwrong += nw - len(wrong)
     finally:
         pool.close(); pool.join()
+    # ---- both table years asked for the same codes in ONE process, in alternating order (answers must not depend on
+    # which edition was asked first); judged against the exact Python oracle
+    ncross = 0; nbadc = 0
+    for g in 'mf':
+        ds = set()
+        for y in W.YEARS:
+            t = T[y]
+            for r in t.rows[g][t.run_start(g):]:
+                c = int(r.km * 1000)
+                ds |= {c - 2, c - 1, c + 1, c + 2}
+        ds |= set(range(60, 60000, 997))
+        names = {n for y in W.YEARS for n in info[(y, g)][4]}
+        for i, d in enumerate(sorted(x for x in ds if DMIN <= x <= DMAX and str(x) not in names)):
+            code = str(d)
+            order = list(W.YEARS) if i % 2 == 0 else list(reversed(W.YEARS))
+            for y in order:
+                for rq, call in ((('best', y, g, None, code, None, '', None), lambda: athlib.wma_world_best(g, code, year=int(y))),
+                                 (('factor', y, g, 81, code, None, '', None), lambda: athlib.wma_age_factor(g, 40.5, code, year=int(y)))):
+                    im = W.canon_py(call); want = H.oracle(T, codes, rq); ncross += 1
+                    okv = (im[0] == 'v' and want[0] == 'v' and abs(im[1] - float(want[1])) <= 1e-9 * abs(float(want[1]))) or (im[0] != 'v' and want[0] != 'v')
+                    if not okv:
+                        nbadc += 1
+                        if nbadc <= 6:
+                            ctx.fail(H.fn_name(rq), H.human_args(rq) + ['asked in the order %s in one process' % '/'.join(order)],
+                                     ('%.12g' % float(want[1])) if want[0] == 'v' else want[1], H.show(im),
+                                     note='history: both table years asked for the same code in one process',
+                                     replay_py='out = []\nfor y in (%s):\n    out.append((y, athlib.wma_world_best(%r, %r, year=y), athlib.wma_age_factor(%r, 40.5, %r, year=y)))\nresult = out' % (', '.join(order), g, code, g, code))
+    ctx.count(ncross, 'cross_year_calls')
+    if nbadc:
+        classes['cross-year [history]'] = nbadc
     ctx.count(tot.get('factor_calls', 0), 'factor_lines')
     ctx.count(tot.get('best_calls', 0), 'best_lines')
     ctx.count(tot.get('oracle_crosscheck', 0), 'oracle_crosscheck_lines')
